@@ -13,13 +13,18 @@ from sv import core
 
 PROPERTY = "C18"
 GEN = ["FlipFlop"]
-PROPS = ["ScoresVerif/Props/C18.lean"]
+PROPS = ["ScoresVerif/Props/C18.lean", "ScoresVerif/Props/C18Sector.lean"]
+AUDIT_FILES = ["ScoresVerif/Lemmas/FlipFlop.lean", "ScoresVerif/Lemmas/FlipFlopC18Base.lean", "ScoresVerif/Lemmas/FlipFlopC18Defs.lean",
+               "ScoresVerif/Lemmas/FlipFlopC18Core.lean", "ScoresVerif/Lemmas/FlipFlopC18Model.lean",
+               "ScoresVerif/Lemmas/FlipFlopC18Gap.lean", "ScoresVerif/Lemmas/FlipFlopC18Nan.lean", "ScoresVerif/Lemmas/FlipFlopC18Skipna.lean",
+               "ScoresVerif/Lemmas/FlipFlopC18Mixed.lean", "ScoresVerif/Lemmas/FlipFlopC18Rotate.lean",
+               "ScoresVerif/Lemmas/FlipFlopC18SkipnaNan.lean", "ScoresVerif/Model/FlipFlop.lean", "ScoresVerif/Spec/FlipFlop.lean"]
 DRIVER_DEPS = ["ScoresVerif.Driver.C18"]
 LEVEL = "proof"
 TRUSTED = ["numpy sort / roll / argmax / mod and xarray shift / sum(skipna) / max(skipna=False) / sel / mean behave as modelled in "
            "Model/FlipFlop.lean — compared on every run (tie X)",
-           "the model of `_encompassing_sector_size_np` equals 360 - largest gap: compared (model and implementation vs both spec "
-           "definitions on every case), not yet proved"]
+           "the model of `_encompassing_sector_size_np` equals the smallest covering arc = 360 - largest gap of the (non-NaN) directions, "
+           "both skipna modes, NaN handling included: PROVED (Props/C18Sector.lean); model vs implementation still compared on every case"]
 ASSUMPTIONS = ["sequence values are small dyadic numbers, angles lie on a 5 degree lattice (possibly rotated by a dyadic amount), so "
                "differences, % 360 and comparisons are exact in float64; quotients by N-2 are compared to 1e-9",
                "threshold ties in proportion-exceeding are only generated for N-2 a power of two (exact quotient)",
@@ -32,13 +37,16 @@ MANIFEST = dict(
          "(both directions of the equivalence); it is invariant under adding a constant, negation and reversal and scales with |c|; it is NaN iff the "
          "sequence contains a NaN; a selection gives the index of the selected sub-sequence normalised by its own length; "
          "proportion-exceeding is the fraction of valid indices >= t; for directional data successive changes are circular "
-         "differences, the range is the sector value capped at 180, and the smallest-covering-sector spec and hence the directional "
-         "index are rotation invariant.  Tied to the code by the translator plus exhaustive/random correspondence "
+         "differences, the range is the sector value capped at 180; the model of _encompassing_sector_size_np (sort, roll, folded "
+         "differences, argmax, rotation, n_unique <= 2 branch) returns, for NaN-free directions of any length >= 1, the smallest covering "
+         "arc = 360 - largest cyclic gap between distinct directions mod 360 (skipna=False: NaN as soon as one direction is NaN/inf; "
+         "skipna=True: NaN directions ignored, all-NaN gives NaN), so the MODEL of the directional index equals the closed "
+         "formula and is invariant under rotating all directions by any rational angle.  Tied to the code by the translator plus exhaustive/random correspondence "
          "(flip_flop_index, encompassing_sector_size with both skipna modes, selections, proportion exceeding with extra dims and "
          "reductions) and an exact-rational oracle incl. rotation by arbitrary dyadic angles.",
-    note="Partial as marked: 'sector model = 360 - largest gap' (the faithful model of _encompassing_sector_size_np vs the spec), "
-         "and 'covering-arc spec = gap spec' are NOT proved; they are compared on every run (implementation, "
-         "model and both spec definitions on all generated angle sets).  Trusted: Lean "
+    note="'sector model = smallest covering arc = 360 - largest gap' is proved for both skipna modes incl. NaN handling (infinite inputs "
+         "only for skipna=False); model, implementation and both spec definitions are additionally compared on all generated angle "
+         "sets.  Trusted: Lean "
          "kernel; propext/Classical.choice/Quot.sound; py2lean + tools/gen/FlipFlop.py; SV.Fl; the hand model of numpy "
          "sort/roll/argmax/% and xarray shift/sum/max/sel/mean; tolerance 1e-9 on dyadic / 5-degree-lattice inputs.  Not modelled: "
          "infinities, float rounding, Dataset inputs of iter_selections.",
